@@ -188,6 +188,20 @@ CLAIMED["C09"] = dict(
     technique="Lean 4 proof (refinement theorems of the caches, induction over the request list) + differential run batch vs. one-at-a-time on the real code + cache-vs-IR comparison at every recorded step",
     design="DESIGN.md#c09",
 )
+CLAIMED["C10"] = dict(
+    engine="E-intervals",
+    text="Lean theorems for every byte interval: join_byte_intervals(split_byte_interval(interval)) restores a fully "
+    "initialized interval exactly - address, size, bytes, blocks and table entries at their offsets - for every "
+    "nop encoding (induction over the cut points, the full padding logic reduced to plain appending under the "
+    "premises); one iteration of the cut loop is undone by appending; a cut keeps the bytes and the absolute "
+    "address of every block it moves; the padding arithmetic reaches the boundary with less than one boundary of "
+    "padding. Tie: the real split/join on generated intervals (overlaps, gaps, zero-sized blocks, uninitialized "
+    "tails, expressions and aux entries, alignment tables, nop sizes 1/2/4) against the compiled model and against "
+    "the statement itself; empty apply() against the identity; alignment after arbitrary rewrites. Partial: the "
+    "padding/uninitialized cases of join and the empty-apply identity are decided by correspondence and oracle.",
+    technique="Lean 4 proof (induction over cut points, permutation reasoning) + differential correspondence of the real split/join with the compiled model + direct oracles",
+    design="DESIGN.md#c10",
+)
 
 ALL = ["C%02d" % i for i in range(1, 21)]
 
@@ -230,6 +244,7 @@ def main():
             {"name": "E-abi", "path": "lean/GtirbVerif/Model/Abi", "serves_properties": ["C16", "C17"], "kind_free_text": "abstract machine + Lean models of _allocate_patch_registers, the four prologue/epilogue generators and CallPatch; tables regenerated from abi._ABIS"},
             {"name": "E-adt", "path": "lean/GtirbVerif/Model/Adt", "serves_properties": ["C20", "C09"], "kind_free_text": "Lean models of ReferenceCache, ReturnEdgeCache, make_return_cache, BlockOrdering, OffsetMapping, IdentitySet with refinement proofs"},
             {"name": "E-modify", "path": "lean/GtirbVerif/Model/IR", "serves_properties": ["C01", "C02", "C03", "C04", "C05", "C06", "C08", "C09"], "kind_free_text": "abstract GTIRB IR + Lean models of edit_byte_interval, split_block, are_joinable/join_blocks, remove_block, insert, delete, _cleanup_modified_blocks, the offset loop of _apply_modifications; listing specification (Spec/Listing*.lean)"},
+            {"name": "E-intervals", "path": "lean/GtirbVerif/Model/Intervals", "serves_properties": ["C10"], "kind_free_text": "Lean model of split_byte_interval / join_byte_intervals with the round-trip theorem"},
             {"name": "E-dwarf", "path": "lean/GtirbVerif/Model/Dwarf", "serves_properties": ["C14", "C15"], "kind_free_text": "Lean model of dwarf/_encoders,_encodable,expr,cfi,cfi_eval + regenerated tables"},
         ],
         "checks": checks,
